@@ -13,7 +13,7 @@ _GEN = "random well-typed operator DAGs from vp.gen (1-2 tables, 0-7 rows with n
 CHECKS = {
     "C01": {
         "technique": "differential property-based testing: Pandas executor vs to_sql()+SQLite on generated operator DAGs and tables",
-        "text": f"Differential exploration: {_GEN} are evaluated by the Pandas executor and by the generated SQL on a real in-memory SQLite; column sets, row multisets (float tolerance, null==NaN) and the key sequence after a final order_rows must agree. Regions of two recorded open findings (null join keys on Pandas, FULL join on differently named keys on SQLite) are excluded by construction and counted. Exploration only.",
+        "text": f"Differential exploration: {_GEN} are evaluated by the Pandas executor and by the generated SQL on a real in-memory SQLite; column sets, row multisets (float tolerance, null==NaN) and the key sequence after a final order_rows must agree. The region of one recorded open finding (FULL join on differently named keys cannot be translated for SQLite) is excluded by construction and counted. Exploration only.",
         "note": "Trusted: vp.cmp comparator, vp.schema type/nullability tracker (decides which columns are zero/null tolerant), SQLite 3.40 as SQL engine. Method fragment is the 'core' list of DESIGN.md 2.2 (no integer / // %, no comparisons on nullable operands: documented conventions).",
     },
     "C02": {
@@ -25,7 +25,7 @@ CHECKS = {
     "C03": {
         "technique": "differential property-based testing: Polars executor (eager and lazy) vs Pandas executor on generated operator DAGs; exceptions allowed and bucketed",
         "text": "Differential exploration on generated DAGs and tables: whenever the Polars executor (eager or lazy) returns, its column set and row multiset must equal the Pandas result, and eager must equal lazy; a raising Polars run is allowed by the property and is counted per (exception type, innermost data_algebra frame). Evidence reports the returned/raised ratio.",
-        "note": "Trusted: Pandas executor as reference side (its own recorded finding, null join keys, is closed by flag), vp.cmp, vp.schema. polars 1.44 lacks several old-API methods (cumsum...), so ordered windows mostly raise and are down-weighted, not removed.",
+        "note": "Trusted: Pandas executor as reference side, vp.cmp, vp.schema. polars 1.44 lacks several old-API methods (cumsum...), so ordered windows mostly raise and are down-weighted, not removed.",
     },
     "C05": {
         "engine": "sqlite-surrogate",
